@@ -91,6 +91,21 @@ func c05PoolOps(r *verifh.Rng, n, maxage, nops int, breach bool) []string {
 	return ops
 }
 
+// c05Enumerate lists every sequence of exactly k ops over the alphabet.
+func c05Enumerate(alphabet []string, k int) [][]string {
+	out := [][]string{{}}
+	for i := 0; i < k; i++ {
+		var next [][]string
+		for _, pre := range out {
+			for _, a := range alphabet {
+				next = append(next, append(append([]string(nil), pre...), a))
+			}
+		}
+		out = next
+	}
+	return out
+}
+
 func c05Gen(r *verifh.Rng) []verifh.Section {
 	var secs []verifh.Section
 	pickN := func() int { return c5.PickN(r) }
@@ -116,6 +131,21 @@ func c05Gen(r *verifh.Rng) []verifh.Section {
 		}
 		secs = append(secs, verifh.Section{Cfg: fmt.Sprintf("kind=pool mode=seq n=%d maxage=%d breach=%d", n, maxage, b),
 			Ops: c05PoolOps(r, n, maxage, r.Range(10, 60), breach)})
+	}
+	// thorough tier: exhaustive small scopes (every op sequence of the given length)
+	if verifh.Thorough() {
+		for _, n := range []int{1, 2} {
+			for _, ops := range c05Enumerate([]string{"try", "borrow", "return", "probe"}, 6) {
+				secs = append(secs, verifh.Section{Cfg: fmt.Sprintf("kind=limit mode=seq n=%d", n), Ops: ops})
+			}
+			for _, ops := range c05Enumerate([]string{"try", "borrow", "return", "probe"}, 5) {
+				secs = append(secs, verifh.Section{Cfg: fmt.Sprintf("kind=tlimit mode=seq n=%d", n), Ops: ops})
+			}
+			for _, ops := range c05Enumerate([]string{"get", "put @0", "put @1", "t+ 11", "t+ 5"}, 5) {
+				secs = append(secs, verifh.Section{Cfg: fmt.Sprintf("kind=pool mode=seq n=%d maxage=10 breach=0", n),
+					Ops: append(append([]string(nil), ops...), "stat")})
+			}
+		}
 	}
 	// concurrent histories
 	for i := 0; i < verifh.Scale(4, 100); i++ {
